@@ -277,6 +277,11 @@ func judgeC20(c C20Case) *h.Verdict {
 		return v
 	}
 	o := out.String()
+	if strings.Contains(o, "CHILD: config rejected") {
+		// the very file this process's ReadConfig accepted is rejected by a fresh process: what validation says
+		// depends on what the process validated before
+		return v.Failf("validation-depends-on-history", "a configuration accepted by ReadConfig in a process that had validated other configurations before is rejected by a fresh process:\n%s\n--- output of the fresh process ---\n%.1500s", y, tail(o, 1500))
+	}
 	crashed := strings.Contains(o, "panic:") || strings.Contains(o, "nil pointer") || strings.Contains(o, "fatal error:") || strings.Contains(o, "SIGSEGV")
 	if err != nil || crashed {
 		where := "start"
